@@ -69,6 +69,21 @@ def body_g96(rec, c):
             rec.check(box is None, "g96:read:box-invented")
         else:
             rec.check(box is not None and len(box) == len(c["box"]) and close(box, c["box"], 5e-10), "g96:read:box", f"{box} vs {c['box']}")
+        # the reduced form of the same configuration (POSITIONRED / VELOCITYRED blocks: three 15-character fields, no atom labels),
+        # as other programs write it: the reader returns the same numbers
+        red = os.path.join(d, "red.g96")
+        with open(red, "w") as fh:
+            fh.write("TITLE\nreduced\nEND\nPOSITIONRED\n" + "".join("".join(f"{x:15.9f}" for x in row) + "\n" for row in c["pos"]) + "END\n")
+            if c["vel"] is not None:
+                fh.write("VELOCITYRED\n" + "".join("".join(f"{x:15.9f}" for x in row) + "\n" for row in c["vel"]) + "END\n")
+            if c["box"] is not None:
+                fh.write("BOX\n" + "".join(f"{x:15.9f}" for x in c["box"]) + "\nEND\n")
+        try:
+            _, xyz_r, vel_r, box_r = read_gromos96_file(red)
+        except Exception as exc:  # noqa: BLE001
+            raise Violation(f"g96:read-raises:reduced-form:{type(exc).__name__}", f"{exc!r} case={c}")
+        rec.check(close(xyz_r, c["pos"], 5e-10) and (c["vel"] is None or close(vel_r, c["vel"], 5e-10)) and (c["box"] is None or close(box_r, c["box"], 5e-10)),
+                  "g96:read:reduced-form", f"pos {np.asarray(xyz_r).tolist()} vel {np.asarray(vel_r).tolist()} vs {c['pos']} {c['vel']}")
         # write what was read, read back with the independent reader
         out = os.path.join(d, "b.g96")
         write_gromos96_file(out, raw, xyz, vel if c["vel"] is not None else None, box)
